@@ -12,4 +12,5 @@ CONSTANTS
   AbortAfterPartial = TRUE
   EndMarkerOnlyOnSuccess = TRUE
   CopyErrorReturned = FALSE
+  DumpRowErrorsReturned = TRUE
 INVARIANTS TypeOK CutIsError Consistent Complete GateReleased
